@@ -69,7 +69,7 @@ def main():
             {"name": "atomica_sa", "path": "/verif/atomica_sa", "serves_properties": [p["id"] for p in props], "kind_free_text": "repository-specific static analysis: loader/symbol table, statement CFG with exception edges and dominators, reaching definitions, table-driven type facts, call graph, must-mutate effect summaries, dimension algebra, order-region evaluator, monotonicity lattice, validator node-kind interpreter; both-ways self-test (mutants/twins) in the thorough tier"}
         ],
         "checks": checks,
-        "notes": "All 20 properties are claimed through necessary-condition clauses decided statically (DESIGN.md). 95 findings on the pinned tree were genuine defects; all are repaired by 20 unguarded 'fix:' commits in /repo (listed in known_findings.json under 'fixed'); no known findings remain. fix commits: " + " ".join(s[:7] for s in reversed(src)),
+        "notes": "All 20 properties are claimed through necessary-condition clauses decided statically (DESIGN.md). 98 findings on the pinned tree were genuine defects; all are repaired by %d unguarded 'fix:' commits in /repo (listed in known_findings.json under 'fixed'); no known findings remain. fix commits: " % len(src) + " ".join(s[:7] for s in reversed(src)),
         "not_applicable": [],
     }
     json.dump(m, open(os.path.join(HERE, "MANIFEST.json"), "w"), indent=1)
